@@ -26,6 +26,7 @@ TRUSTED = [
 ]
 
 CRATE = "c12_rt"
+GENERATOR_REJECTS = {}       # module id -> rustc error codes; filled per run, copied into the evidence
 
 
 # ------------------------------------------------------------------ cases
@@ -190,19 +191,25 @@ def build_and_run(chk, cases, name=CRATE):
         return live
 
     live = settle(cases)        # (the top-level call always ends on a successful build of exactly `live`)
+    if failed:
+        # control: the rejected modules WITHOUT the derive.  A module rustc rejects even then is an artefact of the
+        # generator and says nothing about derive_more: it is dropped from the run and counted, never reported.
+        ctl = [c for c in cases if c["id"] in failed]
+
+        def build_ctl(subset):
+            main, files = G.crate_sources(subset, control=True)
+            d = common.make_crate(name + "_ctl", main, extra_files=files)
+            return common.cargo(d, ["build", "--message-format=json", "--quiet"])
+        _, ctl_failed = G.build_dropping(chk, ctl, lambda c: c["id"], build_ctl, what="C12 control crate")
+        common.cleanup_scratch(name + "_ctl")
+        for cid, diags in ctl_failed.items():
+            GENERATOR_REJECTS[cid] = sorted(set(str(code) for code, _, _ in diags))
+            failed.pop(cid, None)
+        if ctl_failed:
+            chk.log("generator artefacts (rejected by rustc even without the derive), dropped: %s" %
+                    ", ".join("%s %s" % kv for kv in sorted(GENERATOR_REJECTS.items())))
     if not live:
         return failed, {}
-    if failed:
-        # control: the rejected modules without the derive must compile, otherwise the generator is at fault
-        ctl = [c for c in cases if c["id"] in failed]
-        main, files = G.crate_sources(ctl, control=True)
-        d = common.make_crate(name + "_ctl", main, extra_files=files)
-        rc, out = common.cargo(d, ["build", "--message-format=json", "--quiet"])
-        common.cleanup_scratch(name + "_ctl")
-        if rc != 0:
-            bad, other = parse_diags(out, d)
-            raise common.BuildError("generated enum(s) %s are rejected by rustc even without the derive: %s\n%s" %
-                                    (sorted(bad)[:5], [v[:2] for v in list(bad.values())[:3]], other[:3]))
     binp = os.path.join(common.rt_target_dir(), "debug", name)
     import subprocess
     p = subprocess.run([binp], stdout=subprocess.PIPE, stderr=subprocess.PIPE, text=True, timeout=900)
@@ -472,6 +479,7 @@ def run(tier, seed, replay):
     # ---- 4. the real macro, compiled and run (modules whose expansion is for another repr, or that the
     #         expander refused, are already reported and stay out)
     runnable = [c for c in cases if c["id"] not in wrong_repr and not c.get("inproc_only")]
+    GENERATOR_REJECTS.clear()
     try:
         failed, outs = build_and_run(chk, runnable)
     except common.BuildError as e:
@@ -481,7 +489,13 @@ def run(tier, seed, replay):
         failed, outs, runnable = {}, {}, []
     common.cleanup_scratch(CRATE)
 
-    # ---- 5. the model on the run-time points
+    # ---- 5. the model on the run-time points (generator artefacts are out of the run)
+    runnable = [c for c in runnable if c["id"] not in GENERATOR_REJECTS]
+    if GENERATOR_REJECTS:
+        chk.bump("generator_rejects", len(GENERATOR_REJECTS))
+        chk.notes.append("generator artefacts dropped (rustc rejects the enum even without the derive): %s" %
+                         "; ".join("%s %s: %s" % (k, v, G.enum_item(by_id[k], with_derive=False).replace("\n", " ")[:160])
+                                   for k, v in sorted(GENERATOR_REJECTS.items())))
     live = list(runnable)
     exprs = []
     for c in live:
@@ -534,8 +548,11 @@ def run(tier, seed, replay):
             # language table: program (oracle) vs generator vs model
             table = o["table"]
             if gen_tbl is None or table != dict(enumerate(gen_tbl)):
-                chk.violation("tie-language-table", {"case": c, "program": table, "generator": gen_tbl},
-                              "the compiled program's discriminants differ from the generator's evaluation (%s)" % cid)
+                # the generation-time evaluator (tools/lib/c12_gen.ev) is not part of any claim: a disagreement with rustc is
+                # an artefact of the generator, counted and noted; model and oracle are still compared on the real table
+                chk.bump("generator_evaluator_disagrees_with_rustc")
+                chk.notes.append("generator's evaluation differs from the compiled program's discriminants for %s: %s vs %s" %
+                                 (G.enum_item(c, with_derive=False).replace("\n", " ")[:200], gen_tbl, sorted(table.items())))
             if m_tbl != table:
                 chk.violation("tie-model-table", {"case": c, "program": table, "model": m_tbl},
                               "rust_discrs (model of the language rule) differs from the compiled program's casts (%s)" % cid)
@@ -596,7 +613,7 @@ def run(tier, seed, replay):
              "evaluations = (enum, input) pairs; non-trivial = enum with >=1 explicit and >=1 implicit discriminant; distinct by declaration. "
              "plus random #[repr(...)] hint lists through the in-process expander",
         trusted=TRUSTED,
-        extra={"switches": flags})
+        extra={"switches": flags, "generator_rejects": dict(GENERATOR_REJECTS)})
 
 
 META = {
